@@ -3,13 +3,17 @@ import os
 from concurrent.futures import ThreadPoolExecutor
 
 from harness import common as C
+from translate import c16 as T
 
 ID = 'C16'
 PROPS_V = 'C16/Props.v'
 LEVEL = 'proof'
 TRUSTED = [
+    'translate/c16.py + translate/pyexpr.py: Python ast -> Gallina for the key shift/mask expressions, the row subscripts '
+    'data[thisfiber-1], and the offsets / width / slice bounds of spec_append (Generated/Readspec.v, C16/Source.v)',
     'hand-written model C16/Model.v (readspec_core, request_vectors, spec_append, argsort, usort): a transliteration of '
-    'spec1d.py:867-1078,1127-1163 tied to the code by exact correspondence on every run (no translator)',
+    'spec1d.py:867-1078,1127-1163 tied to the code by exact correspondence on every run; the znum row expression is '
+    'tied by correspondence only',
     'astropy FITS writing/reading of the synthetic trees; numpy fancy indexing data[thisfiber-1], np.unique, argsort, '
     'nonzero, concatenate (exercised through the real code, modelled by their meaning)',
     'harness-side expansion of fiber=None ("all fibres") calls into explicit request vectors (number_of_fibers: 640 '
@@ -31,6 +35,19 @@ ASSUMPTIONS = [
     'SPECTRO_MATCH and PHOTO_RESOLVE must be set (readspec reads them unconditionally when no photoPlate file sits next '
     'to the spPlate file)',
 ]
+
+
+
+def translate(ctx):
+    text, info = T.generate(C.REPO)
+    path = os.path.join(C.COQ, 'Generated', 'Readspec.v')
+    if text is not None:
+        info['changed'] = C.write_if_changed(path, text)
+    else:
+        info['note'] = ('source shape not recognised; the previous Generated/Readspec.v is kept and the correspondence run '
+                        'alone ties model to code')
+    return {'Readspec': info}
+
 
 SCALE = 1 << 20
 RUN2D_BOSS = 'v5_7_0'
@@ -155,7 +172,7 @@ def arg_term(x):
 
 
 def gen_scenario(rng, si, kind, root, thorough=False):
-    """kind in path | env | env-sdss | topdir | allfib-sdss | allfib-boss"""
+    """kind in path | path5 (a plate number with five digits) | env | env-sdss | topdir | allfib-sdss | allfib-boss"""
     top = os.path.join(root, 's%03d' % si)
     run2d = '26' if kind == 'env-sdss' else RUN2D_BOSS
     run1d = rng.choice(['v5_7_0', 'r1'])
@@ -172,6 +189,8 @@ def gen_scenario(rng, si, kind, root, thorough=False):
     else:
         nplates = 1 if rng.random() < 0.1 else rng.randint(2, 4)
         plates = rng.sample(range(1, 9999), nplates)
+        if kind == 'path5':
+            plates[rng.randrange(nplates)] = rng.randint(10000, 15999)
         pm = []
         for p in plates:
             nm = rng.choice([1, 1, 2, 2, 3])
@@ -189,7 +208,7 @@ def gen_scenario(rng, si, kind, root, thorough=False):
     same_npix = rng.random() < 0.25
     npix0 = rng.randint(3, 9)
     has_zbest = True if kind == 'topdir' else rng.random() < 0.75
-    has_zall = (kind in ('path', 'env', 'env-sdss')) and rng.random() < 0.7
+    has_zall = (kind in ('path', 'path5', 'env', 'env-sdss')) and rng.random() < 0.7
     has_photo = rng.random() < 0.3
     nper = rng.randint(2, 4)
     metas, decoys = [], []
@@ -204,7 +223,7 @@ def gen_scenario(rng, si, kind, root, thorough=False):
         d['uid'] = 100 + k + 1
         d['c0z'] = meta['c0z'] + 7
         decoys.append(d)
-    layout = 'path' if kind in ('path', 'allfib-sdss', 'allfib-boss') else 'topdir'
+    layout = 'path' if kind in ('path', 'path5', 'allfib-sdss', 'allfib-boss') else 'topdir'
     trees = [{'top': os.path.join(top, 'main'), 'layout': layout, 'run2d': run2d, 'run1d': run1d, 'files': metas}]
     if kind == 'topdir':
         trees.append({'top': os.path.join(top, 'decoy'), 'layout': layout, 'run2d': run2d, 'run1d': run1d, 'files': decoys})
@@ -249,6 +268,9 @@ def gen_scenario(rng, si, kind, root, thorough=False):
 
     def add(tag, plate, mjd, fiber, reqs, znum=None, pass_runs=None, feature='plain', dtype=None, model=None, extra_kw=None):
         pr = pass_runs or rng.choice(['kw', 'env'])
+        if mjd is None and fiber is not None and feature == 'plain' and \
+                any(v >= 10000 for v in ([plate['s']] if 's' in plate else plate['a'])):
+            feature = 'plate5'   # latest_mjd has to find spPlate-PPPPP-MMMMM.fits
         kw, env = base_call(pr)
         if znum is not None:
             kw['znum'] = znum
@@ -368,9 +390,9 @@ def gen_scenario(rng, si, kind, root, thorough=False):
 
 def scenario_plan(ctx):
     if ctx.thorough:
-        kinds = ['path'] * 70 + ['env'] * 40 + ['env-sdss'] * 20 + ['topdir'] * 30 + ['allfib-sdss'] * 2 + ['allfib-boss'] * 6
+        kinds = ['path'] * 70 + ['path5'] * 10 + ['env'] * 40 + ['env-sdss'] * 20 + ['topdir'] * 30 + ['allfib-sdss'] * 2 + ['allfib-boss'] * 6
     else:
-        kinds = ['path'] * 8 + ['env'] * 4 + ['env-sdss'] * 2 + ['topdir'] * 4 + ['allfib-sdss'] + ['allfib-boss'] * 2
+        kinds = ['path'] * 8 + ['path5'] * 2 + ['env'] * 4 + ['env-sdss'] * 2 + ['topdir'] * 4 + ['allfib-sdss'] + ['allfib-boss'] * 2
     return kinds
 
 
